@@ -762,6 +762,25 @@ theorem test_timer_tie
     exact probeEpiW_eq j' pe.2 pe.1 (by simpa using hb)
 
 
+/-! ### census of partial operations
+
+  The translation treats plain `+ - * / % << >>`, indexing and `assert!` as total (wrapping / default) operations; whether
+  they can fail is the subject of C14 (`Rngs.Checked.Jitter` states each of them with its check, `CheckedLemmasJitter`
+  proves that none fails).  The translator lists the partial operations it finds in each translated function, in source
+  order as `op:type`; the list must be the one below — the operations `Checked.Jitter` accounts for.  A source change
+  that turns `wrapping_sub` into `-`, adds an index or an assertion changes the list and breaks the (C14) theorem. -/
+
+def partialOps : String → List String
+  | "random_loop_cnt" => ["+:u32", "-:u32", "/:u32", "<<:u64", "-:u64", ">>:u64"]
+  | "memaccess" => ["+:u32", "+:nat", "-:nat", "%:nat"]
+  | "test_timer" => ["+:u64", "+:u64", "+:i32", "%:i32", "+:u64", "-:i64", "+:u64", "*:u64", "*:u64", "/:u64", "*:u64", "/:u64",
+      "/:u64", "-:u32", "*:u32", "+:u32", "-:u32", "/:u32", "index"]
+  | "set_rounds" => ["assert"]
+  | _ => []
+
+/-- the side condition of `random_loop_cnt` (the shift amounts) is satisfiable: the only caller passes 4 -/
+example : ∃ n : BitVec 32, n.toNat < 64 := ⟨4#32, by decide⟩
+
 /-! ### smaller facts used by the generated proofs -/
 
 theorem rlc_folds (n : BitVec 32) (h : n.toNat < 64) : ((64#32 + n - 1#32) / n).toNat = (64 + n.toNat - 1) / n.toNat := by
